@@ -23,8 +23,9 @@ import (
 )
 
 // WOp: one step of a worker script.
-//   ingest: Docs = raw JSON documents (one bulk request), then Flush / Rotate as flagged
-//   query : Text, Start, End (epoch ms, inclusive range as passed to the API)
+//
+//	ingest: Docs = raw JSON documents (one bulk request), then Flush / Rotate as flagged
+//	query : Text, Start, End (epoch ms, inclusive range as passed to the API)
 type WOp struct {
 	Kind   string   `json:"k"`
 	Docs   []string `json:"docs,omitempty"`
@@ -42,8 +43,9 @@ type WRow struct {
 }
 
 // WValue: canonical form of a measure value as returned by the API.
-//   K = "n" number (S = shortest round-trip decimal of the float64 / integer),
-//       "s" string, "l" list of strings (L, order kept), "nil", "o" other (S = %v)
+//
+//	K = "n" number (S = shortest round-trip decimal of the float64 / integer),
+//	    "s" string, "l" list of strings (L, order kept), "nil", "o" other (S = %v)
 type WValue struct {
 	K string   `json:"k"`
 	S string   `json:"s,omitempty"`
@@ -51,14 +53,14 @@ type WValue struct {
 }
 
 type WObs struct {
-	Err     string   `json:"err,omitempty"`
-	Funcs   []string `json:"funcs,omitempty"`
-	GCols   []string `json:"gcols,omitempty"`
-	Rows    []WRow   `json:"rows,omitempty"`
-	NHits   int      `json:"nhits,omitempty"`
-	Hits    []map[string]interface{} `json:"hits,omitempty"`
-	Qtype   string   `json:"qtype,omitempty"`
-	Ingested int     `json:"ingested,omitempty"`
+	Err      string                   `json:"err,omitempty"`
+	Funcs    []string                 `json:"funcs,omitempty"`
+	GCols    []string                 `json:"gcols,omitempty"`
+	Rows     []WRow                   `json:"rows,omitempty"`
+	NHits    int                      `json:"nhits,omitempty"`
+	Hits     []map[string]interface{} `json:"hits,omitempty"`
+	Qtype    string                   `json:"qtype,omitempty"`
+	Ingested int                      `json:"ingested,omitempty"`
 }
 
 const wIndex = "c04"
